@@ -20,7 +20,7 @@ LEVEL_NOTE = ("Trusted: Lean kernel; hand-written layout model as far as the cor
 LEAN_MODULES = ["RecipeGrid.Props.C02"]
 SOURCES = ["recipe_grid/renderer/recipe_to_table.py", "recipe_grid/renderer/table.py"]
 RULE = ("random recipe trees (arity 1..6, depth <= 8 quick / 12 thorough, titled/untitled/nested single-output sub recipes, multi-output roots, "
-        "references as leaves) plus every tree shape with <= 5 (quick) / 7 (thorough) nodes; non-trivial = more than one cell; distinct = distinct table keys")
+        "references as leaves) plus every tree shape with <= 5 (quick) / 6 (thorough) nodes; non-trivial = more than one cell; distinct = distinct table keys")
 N, E, X = "normal", "sub_recipe", "no-border"
 
 
@@ -113,7 +113,7 @@ def compositions(n, k):
 
 def correspondence(run):
     trees = gen_cases(run, run.budget(1500, 30000))
-    for n in range(1, (5 if run.tier == "quick" else 7) + 1):
+    for n in range(1, (5 if run.tier == "quick" else 6) + 1):
         trees.extend(small_trees(n))
     rep = run.ask([sexp.tag("layout", rsexp.tree(t)) for t in trees])
     for t, m in zip(trees, rep):
@@ -282,7 +282,7 @@ def oracle(run):
         pass  # disagreement inputs are S-expressions; the random budget below is escalated instead
     trees += gen_cases(run, run.budget(1200, 20000))
     small = []
-    for n in range(1, (5 if run.tier == "quick" else 7) + 1):
+    for n in range(1, (5 if run.tier == "quick" else 6) + 1):
         small.extend(small_trees(n))
     for t in trees + small:
         res = check_tree(t)
